@@ -30,6 +30,9 @@ func init() {
 			"antispoof.macToUint64", "antispoof.Manager.AddBinding", "antispoof.Manager.AddBindingV6", "antispoof.Manager.RemoveBinding", "antispoof.Manager.AddAllowedRange",
 			"qos.ipToKey", "nat.ipToKey", "ebpf.HashCircuitID",
 		},
+		// kernel half of the circuit-id key: extract_circuit_id_fixed leaves exactly MakeCircuitIDKey(circuit-id)
+		BPF:      []BPFUnit{{"dhcp_fastpath.c", "dhcp_fastpath_prog"}},
+		BPFKinds: "cid_key",
 		Trusted: []string{
 			"clang's DWARF member metadata (offset, size) for the C declarations; go/types for the Go declarations",
 			"github.com/cilium/ebpf marshals a key/value with encoding/binary rules (fields in declaration order, no padding, blank fields as zeros) in native byte order and rejects a size mismatch (dependency, not verified)",
@@ -38,6 +41,7 @@ func init() {
 		Undecided: []string{
 			"HALF DECIDED: ebpf.HashCircuitID is proved to be the 64-bit FNV-1a recurrence over all bytes of its argument (fnv1a64); that the loop of bpf/dhcp_fastpath.c computes the same recurrence is not proved on the C side",
 			"NOT DECIDED: values the kernel writes and the control plane only reads through ring buffers / perf events (nat_log_rb, spoof_events carry no typed value in the map declaration); maps no Go code touches",
+			"circuit-id keys: the kernel side (extract_circuit_id_fixed leaves the circuit-id bytes zero-padded to 32, for Option 82 at the recognised option offsets 3 and 12..19) and the Go side (MakeCircuitIDKey, under C20/C03) are each proved against the same statement; circuit-ids longer than 32 bytes are refused by the kernel side and truncated by the Go side (observation recorded under C20)",
 			"the meaning of each field beyond offset and width (units, flag bits), except the IPv4 / MAC words covered by the derived-key contracts",
 		},
 		Assumptions: []string{
